@@ -496,7 +496,7 @@ func yieldIdentity(ctx context.Context, site string, obj any, cmd []string) stri
 		}
 		return who + "|" + site + "|" + where + "|" + c
 	}
-	if len(cmd) > 0 {
+	if len(cmd) > 0 && !identNoCmd.Load() {
 		n := len(cmd)
 		if n > 3 {
 			n = 3
